@@ -2,8 +2,10 @@
    Model: Model/C13_Resume.v.  A history is a list of events (connection attempt offering any
    client Session object, close clean/fatal/abrupt, clock, server reconfiguration incl. ticket-key
    rotation and cache parameters, ticket alteration/forgery, deviating-client events);
-   `reachable fixed w` = w is the world after ANY history from ANY initial configuration.
-   Every connection of every history is `conn_delta fixed w cp sv` for a reachable w, and its log
+   `reachable w` = w is the world after ANY history from ANY initial configuration.
+   The model describes the tree with /repo 51120a0 (client fallback, F1) and e172bf7 (TLS 1.3
+   ticket lifetime); the statements those commits made true were `_refuted` before (see comments).
+   Every connection of every history is `conn_delta w cp sv` for a reachable w, and its log
    entry is `d_log (conn_delta ...)`, so the statements below speak about all of them.
    ideal_aead = H-ideal-AEAD (symbolic): open succeeds exactly on seals under the same key. *)
 From Coq Require Import ZArith List Bool.
@@ -24,9 +26,9 @@ Variable junk : Z -> blob.
    lifetime, and it stems from a connection r0 of the history that completed, whose suite, EMS, EtM,
    server name, client identity and master secret the resumed connection has. *)
 Theorem resume_sound_and_preserves_ideal : ideal_aead blob seal open tamper junk ->
-  forall fixed w cp sv cr,
-  reachable blob seal open tamper junk fixed w -> zget (w_servers w) (cp_srv cp) = Some sv ->
-  let r := d_log blob (conn_delta blob seal open fixed w cp sv) in
+  forall w cp sv cr,
+  reachable blob seal open tamper junk w -> zget (w_servers w) (cp_srv cp) = Some sv ->
+  let r := d_log blob (conn_delta blob seal open w cp sv) in
   r_out r = ODone true cr -> r_ver r < 4 ->
   exists h s o,
     r_hello r = Some h /\ r_sview r = Some s /\ r_src r = Some o /\
@@ -40,22 +42,24 @@ Theorem resume_sound_and_preserves_ideal : ideal_aead blob seal open tamper junk
                   (o = ByCache -> r_out r0 = ODone false false /\ v0 = s).
 Proof. exact (resume_sound_preserves12 blob seal open tamper junk). Qed.
 
-(* TLS 1.3 PSK, all histories -- PARTIAL: current key, version, PRF hash, binder secret, issuing
-   connection completed, client identity / hash / EMS / EtM carried over.
-   MISSING (false of the model and of the code, see the _refuted theorems): ticket lifetime,
-   server name and cipher suite equal to the issuing connection's. *)
-Theorem resume_sound_and_preserves_tls13_partial_ideal : ideal_aead blob seal open tamper junk ->
-  forall fixed w cp sv cr,
-  reachable blob seal open tamper junk fixed w -> zget (w_servers w) (cp_srv cp) = Some sv ->
-  let r := d_log blob (conn_delta blob seal open fixed w cp sv) in
+(* TLS 1.3 PSK, all histories.  resume_sound is complete: current key, ticket version, WITHIN LIFETIME
+   (conjunct added with /repo e172bf7; before that commit it was refuted: a ticket with lifetime 100 s
+   resumed 1000 s later), PRF hash, binder secret, issuing connection completed.
+   resume_preserves is PARTIAL: client identity / hash / EMS / EtM carried over; server name and
+   cipher suite of the issuing connection are not (RFC 8446 permits; refuted below, known finding). *)
+Theorem resume_sound_tls13_and_preserves_partial_ideal : ideal_aead blob seal open tamper junk ->
+  forall w cp sv cr,
+  reachable blob seal open tamper junk w -> zget (w_servers w) (cp_srv cp) = Some sv ->
+  let r := d_log blob (conn_delta blob seal open w cp sv) in
   r_out r = ODone true cr -> 4 <= r_ver r ->
   exists h b bk k p s,
     r_hello r = Some h /\ h_psk h = Some (b, bk) /\ r_sview r = Some s /\ r_src r = Some (ByPsk k) /\
-    In k (sv_keys (sv_cfg sv)) /\ open k b = Some p /\ p_ver p = 4 /\ p_hash p = o_fhash cp /\ bk = p_ms p /\
+    In k (sv_keys (sv_cfg sv)) /\ open k b = Some p /\ p_ver p = 4 /\
+    w_now w <= p_created p + sv_life (sv_cfg sv) /\ p_hash p = o_fhash cp /\ bk = p_ms p /\
     exists r0 v0, In r0 (w_log w) /\ is_done (r_out r0) /\ r_sview r0 = Some v0 /\
                   s_ccert s = s_ccert v0 /\ s_hash s = s_hash v0 /\ s_ems s = true /\ s_etm s = false /\
                   s_origin s = s_origin v0.
-Proof. exact (resume_sound_preserves13_partial blob seal open tamper junk). Qed.
+Proof. exact (resume_sound_preserves13 blob seal open tamper junk). Qed.
 
 (* altered, forged or foreign ticket bytes: the server declines (and tries nothing else) *)
 Theorem ticket_forgery_rejected_ideal : ideal_aead blob seal open tamper junk ->
@@ -65,9 +69,9 @@ Theorem ticket_forgery_rejected_ideal : ideal_aead blob seal open tamper junk ->
 Proof. exact (ticket_forgery_rejected blob seal open tamper junk). Qed.
 
 Theorem psk_forgery_rejected_ideal : ideal_aead blob seal open tamper junk ->
-  forall cfg cp (h : hello blob) b bk,
+  forall cfg cp (h : hello blob) now b bk,
   h_psk h = Some (b, bk) -> not_under_current_key seal tamper junk (sv_keys cfg) b ->
-  server_psk blob open cfg cp h = S13Full.
+  server_psk blob open cfg cp h now = S13Full.
 Proof. exact (psk_forgery_rejected blob seal open tamper junk). Qed.
 
 (* unknown session ID: declined *)
@@ -80,10 +84,10 @@ Proof. exact (server_try_resume_unknown_id blob open). Qed.
 (* invalidated_never_resumes, server side, session-ID path: after any connection bound to the cached
    session died abnormally at the server (cr_ks), no connection of any continuation resumes it by ID *)
 Theorem invalidated_never_resumes_ideal : ideal_aead blob seal open tamper junk ->
-  forall fixed w cp sv cr crec sid,
-  reachable blob seal open tamper junk fixed w -> zget (w_servers w) (cp_srv cp) = Some sv ->
+  forall w cp sv cr crec sid,
+  reachable blob seal open tamper junk w -> zget (w_servers w) (cp_srv cp) = Some sv ->
   In crec (w_conns w) -> cr_ks crec = true -> cr_sobj crec = Some sid -> cr_srv crec = cp_srv cp ->
-  let r := d_log blob (conn_delta blob seal open fixed w cp sv) in
+  let r := d_log blob (conn_delta blob seal open w cp sv) in
   r_out r = ODone true cr -> r_ver r < 4 -> r_src r = Some ByCache ->
   forall s, r_sview r = Some s -> s_sid s <> sid.
 Proof. exact (invalidated_never_resumes_by_id blob seal open tamper junk). Qed.
@@ -91,28 +95,29 @@ Proof. exact (invalidated_never_resumes_by_id blob seal open tamper junk). Qed.
 (* invalidated_never_resumes, client side: a Session object whose resumable flag is cleared is not
    offered and the connection is not a resumption (any version, any mechanism) *)
 Theorem invalidated_never_offered_by_client :
-  forall fixed w cp sv i c0,
-  reachable blob seal open tamper junk fixed w -> zget (w_servers w) (cp_srv cp) = Some sv ->
+  forall w cp sv i c0,
+  reachable blob seal open tamper junk w -> zget (w_servers w) (cp_srv cp) = Some sv ->
   cp_offer cp = Some i -> zget (w_clients w) i = Some c0 -> c_res c0 = false ->
-  let r := d_log blob (conn_delta blob seal open fixed w cp sv) in
+  let r := d_log blob (conn_delta blob seal open w cp sv) in
   r_offer_valid r = false /\ forall cr, r_out r <> ODone true cr.
 Proof. exact (invalidated_never_offered blob seal open tamper junk). Qed.
 
-(* fallback_completes -- PARTIAL.  Full statement: whenever the server declines (decision SFull /
-   S13Full) and a full negotiation is possible, both ends complete a full handshake.  Proved for
-   TLS 1.3, for TLS <= 1.2 when the offered session holds no live ticket (pure session-ID), and for
-   every case with the repaired client (fixed = true).  The remaining case is refuted below (F1). *)
-Theorem fallback_completes_partial :
-  forall fixed w cp sv h used,
-  reachable blob seal open tamper junk fixed w -> zget (w_servers w) (cp_srv cp) = Some sv ->
-  client_offer blob fixed cp (offered blob w cp) (w_now w) (w_fresh w) = Offer blob h used ->
+(* fallback_completes -- FULL (session ID, TLS <= 1.2 ticket, TLS 1.3 PSK): whenever the server
+   declines (decision SFull / S13Full) and a full negotiation is possible, both ends complete a full
+   handshake.  Before /repo 51120a0 the TLS <= 1.2 ticket case was refuted (finding F1): history
+   [full handshake with ticket under key 1; clean close; server replaces the key by 7; the client offers
+   the session] ended with the client's unexpected_message alert; see fallback_f1_history_completes. *)
+Theorem fallback_completes :
+  forall w cp sv h used,
+  reachable blob seal open tamper junk w -> zget (w_servers w) (cp_srv cp) = Some sv ->
+  client_offer blob cp (offered blob w cp) (w_now w) (w_fresh w) = Offer blob h used ->
   o_fsuite cp <> 0 ->
-  let r := d_log blob (conn_delta blob seal open fixed w cp sv) in
+  let r := d_log blob (conn_delta blob seal open w cp sv) in
   let v := Z.min (cp_maxv cp) (sv_maxv (sv_cfg sv)) in
-  (4 <= v -> server_psk blob open (sv_cfg sv) cp h = S13Full -> r_out r = ODone false false) /\
+  (4 <= v -> server_psk blob open (sv_cfg sv) cp h (w_now w) = S13Full -> r_out r = ODone false false) /\
   (v < 4 -> snd (server_try_resume blob open (sv_cfg sv) (sv_store sv) (o_acc cp) h (w_now w)) = SFull ->
-   fixed = true \/ no_live_ticket used -> r_out r = ODone false false).
-Proof. exact (fallback_completes_partial blob seal open tamper junk). Qed.
+   r_out r = ODone false false).
+Proof. exact (fallback_completes_all blob seal open tamper junk). Qed.
 
 End C13.
 
@@ -120,59 +125,49 @@ End C13.
 Example ideal_aead_instance : ideal_aead sblob Sealed sopen Tampered Junk.
 Proof. exact sym_aead_ideal. Qed.
 
-(* fallback_completes REFUTED for TLS <= 1.2 tickets (finding F1): history
-   [full handshake with ticket under key 1; clean close; server replaces the key by 7]; the client
-   offers the session; the server declines; a full negotiation is possible; the client aborts with
-   unexpected_message. *)
-Theorem fallback_completes_refuted :
-  let w := srun false [wit_cfg 3 [1] 400] wit_f1_history in
+(* the history that refuted fallback_completes before the client repair now completes *)
+Example fallback_f1_history_completes :
+  let w := srun [wit_cfg 3 [1] 400] wit_f1_history in
   let cp := wit_cp 3 (Some 0) 1 49199 in
   exists sv h used,
     zget (w_servers w) 0 = Some sv /\
-    client_offer sblob false cp (offered sblob w cp) (w_now w) (w_fresh w) = Offer sblob h used /\
+    client_offer sblob cp (offered sblob w cp) (w_now w) (w_fresh w) = Offer sblob h used /\
+    h_ticket h <> None /\
     snd (server_try_resume sblob sopen (sv_cfg sv) (sv_store sv) (o_acc cp) h (w_now w)) = SFull /\
-    o_fsuite cp <> 0 /\
-    r_out (d_log sblob (conn_delta sblob Sealed sopen false w cp sv)) = OAbortC unexpected_message.
-Proof. exact fallback_refuted_witness. Qed.
+    r_out (d_log sblob (conn_delta sblob Sealed sopen w cp sv)) = ODone false false.
+Proof. exact Proofs.C13_Thms.fallback_f1_history_completes. Qed.
 
-(* the same history with the repaired client (proposed_fixes/C13-1.diff) completes *)
-Example fallback_completes_fixed_example :
-  let w := srun true [wit_cfg 3 [1] 400] wit_f1_history in
-  let cp := wit_cp 3 (Some 0) 1 49199 in
-  exists sv, zget (w_servers w) 0 = Some sv /\
-    r_out (d_log sblob (conn_delta sblob Sealed sopen true w cp sv)) = ODone false false.
-Proof. exact fallback_fixed_witness. Qed.
-
-(* resume_sound "within lifetime" REFUTED for TLS 1.3: ticketLifetime 100 s, offered 1000 s later *)
-Theorem resume_sound_tls13_lifetime_refuted :
-  let w := srun false [wit_cfg 4 [1] 400] wit_13_expired in
+(* the history that refuted the TLS 1.3 lifetime conjunct (ticketLifetime 100 s, offered 1000 s later by
+   a client that keeps the ticket) is now declined and completes as a full handshake *)
+Example tls13_expired_history_declined :
+  let w := srun [wit_cfg 4 [1] 400] wit_13_expired in
   let cp := wit_cp 4 (Some 0) 1 4865 in
-  exists sv h b bk p,
+  exists sv h,
     zget (w_servers w) 0 = Some sv /\
-    r_out (d_log sblob (conn_delta sblob Sealed sopen false w cp sv)) = ODone true true /\
-    r_hello (d_log sblob (conn_delta sblob Sealed sopen false w cp sv)) = Some h /\
-    h_psk h = Some (b, bk) /\ sopen 1 b = Some p /\
-    p_created p + sv_life (sv_cfg sv) < w_now w.
-Proof. exact tls13_lifetime_refuted_witness. Qed.
+    r_hello (d_log sblob (conn_delta sblob Sealed sopen w cp sv)) = Some h /\ h_psk h <> None /\
+    r_out (d_log sblob (conn_delta sblob Sealed sopen w cp sv)) = ODone false false.
+Proof. exact Proofs.C13_Thms.tls13_expired_history_declined. Qed.
 
-(* resume_preserves (server name, suite) REFUTED for TLS 1.3; the client identity is carried over *)
+(* resume_preserves (server name, suite) REFUTED for TLS 1.3 (design level: RFC 8446 permits; known
+   finding); the client identity is carried over *)
 Theorem resume_preserves_tls13_sni_suite_refuted :
-  let w := srun false [wit_cfg 4 [1] 400] wit_13_sni in
+  let w := srun [wit_cfg 4 [1] 400] wit_13_sni in
   let cp := wit_cp 4 (Some 0) 2 4867 in
   exists sv s r0 v0,
     zget (w_servers w) 0 = Some sv /\
-    r_out (d_log sblob (conn_delta sblob Sealed sopen false w cp sv)) = ODone true true /\
-    r_sview (d_log sblob (conn_delta sblob Sealed sopen false w cp sv)) = Some s /\
+    r_out (d_log sblob (conn_delta sblob Sealed sopen w cp sv)) = ODone true true /\
+    r_sview (d_log sblob (conn_delta sblob Sealed sopen w cp sv)) = Some s /\
     nth_error (w_log w) 0 = Some r0 /\ r_sview r0 = Some v0 /\
     s_ccert s = s_ccert v0 /\ s_ccert s = 1 /\ s_sni s <> s_sni v0 /\ s_suite s <> s_suite v0.
 Proof. exact tls13_sni_suite_refuted_witness. Qed.
 
-(* invalidated_never_resumes REFUTED for the ticket path at the server (stateless tickets) *)
+(* invalidated_never_resumes REFUTED for the ticket path at the server (inherent to stateless tickets,
+   RFC 5077; known finding) *)
 Theorem invalidated_never_resumes_ticket_refuted :
-  let w := srun false [wit_cfg 3 [1] 400] wit_ticket_survives in
+  let w := srun [wit_cfg 3 [1] 400] wit_ticket_survives in
   let cp := wit_cp 3 (Some 0) 1 49199 in
   exists sv crec,
     zget (w_servers w) 0 = Some sv /\ nth_error (w_conns w) 0 = Some crec /\ cr_ks crec = true /\
-    r_out (d_log sblob (conn_delta sblob Sealed sopen false w cp sv)) = ODone true true /\
-    r_src (d_log sblob (conn_delta sblob Sealed sopen false w cp sv)) = Some (ByTicket 1).
+    r_out (d_log sblob (conn_delta sblob Sealed sopen w cp sv)) = ODone true true /\
+    r_src (d_log sblob (conn_delta sblob Sealed sopen w cp sv)) = Some (ByTicket 1).
 Proof. exact ticket_outlives_invalidation_witness. Qed.
